@@ -144,6 +144,7 @@ type vfC03Cfg struct {
 	dbmap   map[int]int
 	now     uint64
 	tick    int // ms of virtual time per request (0 = the clock stands still)
+	rht     bool // ReplaceHashTag
 	flt     *vfc03.FilterSpec
 }
 
@@ -175,7 +176,7 @@ func (c vfC03Cfg) String() string {
 	if f == nil {
 		f = &vfc03.FilterSpec{}
 	}
-	return fmt.Sprintf("%d %d %d %d %d %d %d %d %s %d %d %s", c.thr, c.tgt, c.fnex, b2i(c.modaux), b2i(c.restore), c.bulk, c.par, c.tdb, c.dbmapStr(), c.now, c.tick, f.Tokens())
+	return fmt.Sprintf("%d %d %d %d %d %d %d %d %s %d %d %d %s", c.thr, c.tgt, c.fnex, b2i(c.modaux), b2i(c.restore), c.bulk, c.par, c.tdb, c.dbmapStr(), c.now, c.tick, b2i(c.rht), f.Tokens())
 }
 
 // filterConfig is the configuration handed to the real RedisOutput.
@@ -219,6 +220,15 @@ func (c vfC03Cfg) mapDB(db int) int {
 	return db
 }
 
+// dstKey: the key an entry is replayed to (ReplaceHashTag removes the first '{' and the first '}')
+func (c vfC03Cfg) dstKey(k []byte) []byte {
+	if !c.rht {
+		return k
+	}
+	k = bytes.Replace(k, []byte("{"), nil, 1)
+	return bytes.Replace(k, []byte("}"), nil, 1)
+}
+
 type vfC03Pre struct {
 	db  int
 	key []byte
@@ -254,6 +264,7 @@ func vfC03Send(t *testing.T, data []byte, c vfC03Cfg, pre []vfC03Pre) (tg *vfc03
 			TargetDb:               c.tdb,
 			TargetDbMap:            c.dbmap,
 			KeyExists:              "replace",
+			ReplaceHashTag:         c.rht,
 			FunctionExists:         []string{"replace", "flush", "append"}[c.fnex],
 			ModuleAuxPolicy:        policy,
 			MaxProtoBulkLen:        c.bulk,
@@ -433,7 +444,7 @@ func TestVerifC03Replay(t *testing.T) {
 				if r.Bool() {
 					v = &vfc03.Val{Kind: "list", List: [][]byte{[]byte("o1"), []byte("o2")}, TTL: 5555, ExpAt: 5555}
 				}
-				pre = append(pre, vfC03Pre{c.mapDB(k.DB), k.Key, v})
+				pre = append(pre, vfC03Pre{c.mapDB(k.DB), c.dstKey(k.Key), v})
 			}
 		}
 		if r.Chance(1, 3) {
@@ -442,10 +453,10 @@ func TestVerifC03Replay(t *testing.T) {
 		return pre
 	}
 
-	// ---- corpus: "l2 <cfg… now tick> <5 filter tokens> <npre> (<db> <hexkey>)* FILE" (pre-existing keys are strings "old")
+	// ---- corpus: "l2 <cfg… now tick rht> <5 filter tokens> <npre> (<db> <hexkey>)* FILE" (pre-existing keys are strings "old")
 	for _, l := range vfutil.Corpus("C03") {
 		f := strings.Fields(l)
-		if len(f) < 19 || f[0] != "l2" {
+		if len(f) < 20 || f[0] != "l2" {
 			continue
 		}
 		var c vfC03Cfg
@@ -453,12 +464,13 @@ func TestVerifC03Replay(t *testing.T) {
 		var dm string
 		fmt.Sscanf(strings.Join(f[1:11], " "), "%d %d %d %d %d %d %d %d %s %d", &c.thr, &c.tgt, &c.fnex, &ma, &re, &c.bulk, &c.par, &c.tdb, &dm, &c.now)
 		fmt.Sscanf(f[11], "%d", &c.tick)
-		flt, ferr := vfc03.ParseFilter(f[12:17])
+		c.rht = f[12] == "1"
+		flt, ferr := vfc03.ParseFilter(f[13:18])
 		if ferr != nil {
 			t.Fatalf("corpus line: %v: %q", ferr, l)
 		}
 		c.flt = flt
-		fmt.Sscanf(f[17], "%d", &npre)
+		fmt.Sscanf(f[18], "%d", &npre)
 		c.modaux, c.restore = ma == 1, re == 1
 		if dm != "-" {
 			c.dbmap = map[int]int{}
@@ -471,21 +483,40 @@ func TestVerifC03Replay(t *testing.T) {
 		var pre []vfC03Pre
 		for i := 0; i < npre; i++ {
 			var db int
-			fmt.Sscanf(f[18+2*i], "%d", &db)
-			pre = append(pre, vfC03Pre{db, vfutil.UnHex(f[19+2*i]), &vfc03.Val{Kind: "string", Str: []byte("old")}})
+			fmt.Sscanf(f[19+2*i], "%d", &db)
+			pre = append(pre, vfC03Pre{db, vfutil.UnHex(f[20+2*i]), &vfc03.Val{Kind: "string", Str: []byte("old")}})
 		}
-		cases = append(cases, kase{ds: nil, cfg: c, pre: pre, src: "corpus", desc: strings.Join(f[18+2*npre:], " ")})
+		cases = append(cases, kase{ds: nil, cfg: c, pre: pre, src: "corpus", desc: strings.Join(f[19+2*npre:], " ")})
 	}
 
 	g := vfc03.NewGen(r.Fork())
 	n := vfutil.Scale(220, 5000)
 	for i := 0; i < n; i++ {
 		ds := g.File(vfc03.FileOpts{MaxKeys: 6, Now: now, MultiDB: true, Reserved: true, Modules: true,
-			Huge: i == n/2 || (vfutil.Thorough() && i%500 == 7), Versions: []int{6, 7, 8, 9, 10, 11, 12, 13}})
+			Huge: i == n/2 || (vfutil.Thorough() && i%500 == 7),
+			Many: map[int]string{n/3: "slpmany", 2*n/3: "hlpmany"}[i], Versions: []int{6, 7, 8, 9, 10, 11, 12, 13}})
 		c := randCfg(ds)
 		c.flt = randFilter(ds)
+		if r.Chance(1, 4) {
+			// ReplaceHashTag, when the rewritten keys stay distinct per target DB
+			c.rht = true
+			seen := map[string]bool{}
+			for _, k := range ds.Keys {
+				id := fmt.Sprintf("%d/%s", c.mapDB(k.DB), c.dstKey(k.Key))
+				if seen[id] {
+					c.rht = false
+				}
+				seen[id] = true
+			}
+		}
+		if ds.Many {
+			c.tick = 0 // tens of thousands of requests: keep later keys' expiries ahead of the clock
+			c.restore = false
+		}
 		cases = append(cases, kase{ds: ds, cfg: c, pre: randPre(ds, c), src: "gen", desc: ds.Desc})
 	}
+	maxDrift := int64(0)
+	defer func() { s.Add("max_expiry_lateness_ms", int(maxDrift)) }()
 	descs := make([]string, len(cases))
 	for i, k := range cases {
 		descs[i] = k.desc
@@ -521,6 +552,7 @@ func TestVerifC03Replay(t *testing.T) {
 		s.Count(fmt.Sprintf("par_%d", c.par))
 		s.Count(fmt.Sprintf("restore_%d", b2i(c.restore)))
 		s.Count(fmt.Sprintf("tick_%d", c.tick))
+		s.Count(fmt.Sprintf("rht_%d", b2i(c.rht)))
 		s.Add("restore_bad_data_format_fallbacks", tg.BadFormat)
 		if len(o.File) > 1<<20 {
 			s.Count("files_over_1MiB")
@@ -561,7 +593,7 @@ func TestVerifC03Replay(t *testing.T) {
 			// corpus case: expectation from the encoder's key list only (payload / presence)
 			for _, m := range o.Keys {
 				if c.flt.DbFiltered(m.DB) || c.flt.KeyFiltered(m.Key) {
-					if _, ok := tg.DBs[c.mapDB(m.DB)][string(m.Key)]; ok {
+					if _, ok := tg.DBs[c.mapDB(m.DB)][string(c.dstKey(m.Key))]; ok {
 						s.Violate("filtered-key-written", fmt.Sprintf("filtered key %x present in db %d", m.Key, c.mapDB(m.DB)), replay)
 					}
 					continue
@@ -569,7 +601,7 @@ func TestVerifC03Replay(t *testing.T) {
 				if vfC03TTL(c.now, m.ExpireAt) == 1 {
 					continue
 				}
-				if _, ok := tg.DBs[c.mapDB(m.DB)][string(m.Key)]; !ok {
+				if _, ok := tg.DBs[c.mapDB(m.DB)][string(c.dstKey(m.Key))]; !ok {
 					s.Violate("key-missing", fmt.Sprintf("key %x missing in db %d", m.Key, c.mapDB(m.DB)), replay)
 				}
 			}
@@ -580,7 +612,7 @@ func TestVerifC03Replay(t *testing.T) {
 			want[fmt.Sprintf("%d/%s", p.db, vfutil.Hex(p.key))] = p.val.Canon()
 		}
 		for _, ek := range k.ds.Keys {
-			vfc03.NormalizeStream(ek.Val, tg.DBs[c.mapDB(ek.DB)][string(ek.Key)], c.tgt)
+			vfc03.NormalizeStream(ek.Val, tg.DBs[c.mapDB(ek.DB)][string(c.dstKey(ek.Key))], c.tgt)
 		}
 		got := map[string]string{}
 		for _, l := range tg.Snapshot() {
@@ -590,7 +622,8 @@ func TestVerifC03Replay(t *testing.T) {
 		for j, ek := range k.ds.Keys {
 			s.Count("kind_" + ek.Kind)
 			s.Distinct(ek.Kind + "/" + fmt.Sprint(len(ek.Val.Canon())%97))
-			id := fmt.Sprintf("%d/%s", c.mapDB(ek.DB), vfutil.Hex(ek.Key))
+			dk := c.dstKey(ek.Key)
+			id := fmt.Sprintf("%d/%s", c.mapDB(ek.DB), vfutil.Hex(dk))
 			if c.flt.DbFiltered(ek.DB) || c.flt.KeyFiltered(ek.Key) {
 				// filtered out: must not reach the target (a pre-existing key stays as it was)
 				s.Count("filtered_keys")
@@ -607,11 +640,19 @@ func TestVerifC03Replay(t *testing.T) {
 				s.Count("expired_keys")
 				continue
 			}
-			v := tg.DBs[c.mapDB(ek.DB)][string(ek.Key)]
-			// the absolute expiry a request establishes is judged from the target clock at the
-			// entry's first request (+- a few ms of request accounting)
-			if v != nil && ek.ExpireAt != 0 && v.ExpAt-int64(ek.ExpireAt) <= 3 && int64(ek.ExpireAt)-v.ExpAt <= 3 {
-				v.ExpAt = int64(ek.ExpireAt)
+			v := tg.DBs[c.mapDB(ek.DB)][string(dk)]
+			// C03: the key carries the source's absolute expiry. The expiry a request establishes on
+			// the target (target clock at the request + TTL, or the absolute time of PEXPIREAT /
+			// RESTORE ABSTTL) may be late by at most the time the entry's own requests had taken
+			// (`Allow`), never early (3 ms of accounting slack either way).
+			if v != nil && ek.ExpireAt != 0 && v.ExpAt != 0 {
+				drift := v.ExpAt - int64(ek.ExpireAt)
+				if drift >= -3 && drift <= v.Allow+3 {
+					if drift > maxDrift {
+						maxDrift = drift
+					}
+					v.ExpAt = int64(ek.ExpireAt)
+				}
 			}
 			if v != nil && v.Kind == "restored" {
 				s.Count("path_restore")
